@@ -136,6 +136,9 @@ func run(prop *Prop, id, tier string, seed int64, replay, work string, start tim
 	harnessErr := ""
 	for ui := range prop.Units {
 		u := &prop.Units[ui]
+		if only := os.Getenv("VERIF_ONLY_UNIT"); only != "" && u.Name != only {
+			continue // development aid: never set by a registered command
+		}
 		if replayUnit != "" && u.Name != replayUnit {
 			continue
 		}
